@@ -325,8 +325,14 @@ class _RedisConsumer(ConsumerT):
             priority=priority.value,
         )
 
-        payload: bytes | None = await self.conn.hget(mnc(routing_key), "payload")
-        parameters: bytes | None = await self.conn.hget(mnc(routing_key), "parameters")
+        try:
+            payload: bytes | None = await self.conn.hget(mnc(routing_key), "payload")
+            parameters: bytes | None = await self.conn.hget(mnc(routing_key), "parameters")
+        except asyncio.CancelledError:
+            # the consumer is being finished, but the message is already marked as processing:
+            # hand it back, nobody else knows about it yet
+            await asyncio.shield(self.broker.reject(routing_key))
+            raise
 
         if payload is None or parameters is None:  # pragma: no cover
             # message's data was removed (but somehow id was present in the queue :shrug:)
